@@ -760,6 +760,38 @@ theorem share_at_most_once (c : Cfg) (s : RSt) (ws : List Wire) (k : CJ.Registry
     have hb : budget s k = 0 := by unfold budget; rw [if_pos ht]
     omega
 
+/-- **A re-sent registration has no effect**, whatever changed in the message: when the registration a
+message yields is already tracked — a copy delivered again, or the same session registering again with
+another covert address, other flags (pre-scanned set) or through another source (first seen by the local
+detector, then shared by a peer) — it is not announced, no liveness probe is sent for an IPv4
+registration, nothing is shared for it, and it is connectable afterwards iff it was before.  In
+particular a registration that was dropped (live phantom, forbidden covert address, blocklisted phantom)
+is not revived by a later message that would pass. -/
+theorem resent_registration_no_effects (c : Cfg) (s : RSt) (m : Msg) (o : Oracles) (hsel : SelectorFam o) (f : Fam)
+    (r : Reg) (hr : regOf c m o f = some r) (e : CJ.Registry.Reg) (he : get s (keyOf r) = some e) :
+    Ev.announce r ∉ (ingestWire c s (.msg m o)).2 ∧
+    (f = .v4 → ∀ ph port, Ev.probe ph port ∉ (ingestWire c s (.msg m o)).2) ∧
+    (ingestWire c s (.msg m o)).2.countP (isShareOf (keyOf r)) = 0 ∧
+    (connectable (ingestWire c s (.msg m o)).1 r = true ↔ connectable s r = true) := by
+  have hcore : ¬ (validate c r = .ok () ∧ get s (keyOf r) = none ∧ passes c o r = true) := by
+    rintro ⟨_, hn, _⟩; rw [he] at hn; cases hn
+  refine ⟨fun ha => hcore ((wire_effect c s m o hsel f r hr).2.mp ha), ?_, ?_, ?_⟩
+  · intro hf ph port hp
+    subst hf
+    obtain ⟨r', ⟨hr', _, hn, _, _⟩, _, _⟩ := (probe_iff_required c s m o hsel ph port).mp hp
+    rw [hr] at hr'; cases hr'
+    rw [he] at hn; cases hn
+  · have h := budget_ingestWire c s (.msg m o) (keyOf r)
+    have hb : budget s (keyOf r) = 0 := by unfold budget; rw [he]; rfl
+    omega
+  · rw [connectable_iff, connectable_iff]
+    constructor
+    · intro h
+      rcases (wire_effect c s m o hsel f r hr).1.mp h with h | h
+      · exact h
+      · exact absurd h hcore
+    · intro h; exact (wire_effect c s m o hsel f r hr).1.mpr (Or.inl h)
+
 /-- … and a single message makes at most one share request in total (its IPv6 twin never shares when
 there is an IPv4 twin) -/
 theorem one_share_per_message (c : Cfg) (s : RSt) (m : Msg) (o : Oracles) (hsel : SelectorFam o)
